@@ -61,6 +61,7 @@ type seqOp struct {
 	Vs      []int   `json:"vs,omitempty"` // fresh operand (alphabet indices)
 	Operand string  `json:"operand,omitempty"`
 	Ranker  string  `json:"ranker,omitempty"`
+	Q       bool    `json:"q,omitempty"` // quiet: the views are not looked at after this operation
 }
 
 type seqCase struct {
@@ -236,8 +237,19 @@ func genSeqCase(small bool, maxOps int) func(core.Source) seqCase {
 			}
 		}
 		nops := 1 + s.Choose(maxOps, "nops")
+		// sparse: the views are looked at after some operations only (a cached view that some mutator
+		// forgets to invalidate survives only changes nobody looked at)
+		sparse := !small && s.Choose(2, "sparse") == 0
+		lookLast := small && nops > 1 && s.Choose(2, "look-at-the-end-only") == 1
 		for i := 0; i < nops; i++ {
-			c.Ops = append(c.Ops, genSeqOp(s, c.Coll, small, nalpha))
+			op := genSeqOp(s, c.Coll, small, nalpha)
+			if sparse {
+				op.Q = s.Choose(3, "quiet") != 0
+			}
+			if lookLast {
+				op.Q = true
+			}
+			c.Ops = append(c.Ops, op)
 		}
 		return c
 	}
@@ -845,7 +857,7 @@ func execSeq[E any](c seqCase, et elemType[E]) core.Result {
 		if v == nil {
 			v = r.checkKept(step, what)
 		}
-		if v == nil {
+		if v == nil && !(op.Q && step+1 < len(c.Ops)) {
 			v = r.checkState(step, what)
 			if v != nil && r.sameSlice(before, r.model) {
 				// the abstract sequence did not change (a panic was required, or the call is a pure query)
